@@ -272,3 +272,70 @@ class ValidateRules(Contract):
 
     def frame_ok(self, I, inp, obj, name):
         return False
+
+
+@register
+class ValidatorFromDict(Contract):
+    """SigmaValidator.from_dict: the validator set is built from the names in order (`all`, additions, removals with a leading `-`); the
+    exclusion table maps each rule id (as UUID; null for rules without id) to exactly the validator classes named for it (a single name or a
+    list); the configuration is passed per validator name; unknown names, a removal of a validator that is not in the set and a
+    configuration that is no map are configuration errors"""
+    id = "C19.SigmaValidator.from_dict"
+    target = f"{VA}:SigmaValidator.from_dict"
+    props = ("C19",)
+    cases = ("all-minus", "listed", "remove-missing", "unknown-validator", "exclusions", "exclusion-unknown", "config", "config-unknown", "config-not-map", "empty")
+
+    def setup(self, E):
+        E.externals["uuid.UUID"] = lambda I, a, k: SObj("UUID", {"of": a[0]})
+        E._c19b_made = []
+
+        def hook(I, cinfo, args, kwargs):
+            from pyvc.interp import UNBOUND
+            if cinfo.name == "SigmaValidator":
+                E._c19b_made.append((list(args), dict(kwargs)))
+                return SObj("NewValidator", {})
+            return UNBOUND
+        E.instantiate_hook = hook
+
+    def args(self, I, case):
+        del I.E._c19b_made[:]
+        A, B, C = SObj("ClassA", {}), SObj("ClassB", {}), SObj("ClassC", {})
+        reg = {"a": A, "b": B, "c": C}
+        idtext = I.fresh("rule_id", "str")
+        d = {"all-minus": {"validators": ["all", "-b"]}, "listed": {"validators": ["c", "a", "c"]}, "remove-missing": {"validators": ["a", "-b"]}, "unknown-validator": {"validators": ["a", "zz"]},
+             "exclusions": {"validators": ["all"], "exclusions": {idtext: "a", None: ["b", "c"]}}, "exclusion-unknown": {"validators": ["all"], "exclusions": {idtext: ["a", "zz"]}},
+             "config": {"validators": ["a"], "config": {"a": {"k": 1}, "b": {}}}, "config-unknown": {"validators": ["a"], "config": {"zz": {}}}, "config-not-map": {"validators": ["a"], "config": {"a": 5}}, "empty": {}}[case]
+        return {"self": ClassRef(I.E.index.lookup(f"{VA}:SigmaValidator")), "args": [d, reg], "reg": reg, "d": d, "idtext": idtext, "case": case}
+
+    def post(self, I, inp, r):
+        c, case, reg = I.ctx, inp["case"], inp["reg"]
+        c.require(case in ("all-minus", "listed", "exclusions", "config", "empty"), "faulty definitions are rejected")
+        m = I.E._c19b_made
+        ok = len(m) == 1 and len(m[0][0]) == 3 and not m[0][1]
+        c.require(ok, "one validator object built from (classes, exclusions, configuration)")
+        if not ok:
+            return
+        classes, excl, conf = [I.force(x) for x in m[0][0]]
+        want = {"all-minus": {"a", "c"}, "listed": {"a", "c"}, "exclusions": {"a", "b", "c"}, "config": {"a"}, "empty": set()}[case]
+        c.require(isinstance(classes, set) and len(classes) == len(want) and all(any(x is reg[n] for x in classes) for n in want), f"the validator classes {sorted(want)}")
+        if case == "exclusions":
+            keys = list(excl)
+            byid = [k for k in keys if isinstance(k, SObj) and k.cls == "UUID" and k.fields["of"] is inp["idtext"]]
+            c.require(len(keys) == 2 and len(byid) == 1 and None in excl, "one entry per rule id: the UUID of the id text, and null for rules without id")
+            if len(byid) == 1 and None in excl:
+                e1, e2 = I.force(excl[byid[0]]), I.force(excl[None])
+                c.require(isinstance(e1, set) and len(e1) == 1 and next(iter(e1)) is reg["a"], "a single name excludes exactly that validator class")
+                c.require(isinstance(e2, set) and len(e2) == 2 and all(any(x is reg[n] for x in e2) for n in ("b", "c")), "a list of names excludes exactly those classes")
+        else:
+            c.require(excl == {}, "no exclusions")
+        if case == "config":
+            c.require(isinstance(conf, dict) and list(conf) == ["a", "b"] and conf["a"] is inp["d"]["config"]["a"], "the configuration map of each named validator")
+        else:
+            c.require(conf == {}, "no configuration")
+
+    def raises(self, I, inp, exc):
+        I.ctx.require(inp["case"] in ("remove-missing", "unknown-validator", "exclusion-unknown", "config-unknown", "config-not-map") and exc_is(I, exc, "SigmaConfigurationError") and I.E._c19b_made == [],
+                      f"SigmaConfigurationError exactly for faulty definitions, nothing built (got {exc_name(exc)} in case {inp['case']})")
+
+    def frame_ok(self, I, inp, obj, name):
+        return False
